@@ -129,6 +129,7 @@ def run(ctx, chk, tier="quick"):
         chk.indeterminate("C04.O1", where_of(f, f.node), "signature changed")
         return
     pj, pr = f.params  # (is_jump, is_raining)
+    _running_index_sentinels(ctx, chk, f)
     try:
         au = extract_automaton(f)
     except ValueError as exc:
@@ -560,3 +561,39 @@ def _rate_alignment(mod, flow, rdef, level, epoch):
     if num is None or _diff_kind(mod, num, level) != 1:
         return ("unknown" if num is None else "left"), "increments %s" % (ast.unparse(num) if num is not None else ast.unparse(qe)), qe
     return align, "concatenate(%s, %s)" % (ast.unparse(a), ast.unparse(b))[:120], qe
+
+
+def _running_index_sentinels(ctx, chk, f):
+    """Vectorised form of the flag: `np.maximum.accumulate(np.where(event, index, FILL))` gives the index of the
+    latest event; FILL stands for "no event yet" and therefore must not be a valid index.  With index =
+    np.arange(n) and FILL >= 0 an event at the first sample and no event at all are the same number."""
+    flow = Flow.of(f)
+    mod = f.module
+    for c in ast.walk(f.node):
+        if not (isinstance(c, ast.Call) and (full_call_name(mod, c) or "").endswith("maximum.accumulate") and c.args):
+            continue
+        w = c.args[0]
+        w = flow.def_value(w) if isinstance(w, ast.Name) else w
+        if not (isinstance(w, ast.Call) and (full_call_name(mod, w) or "").split(".")[-1] == "where" and len(w.args) == 3):
+            continue
+        idx, fill = w.args[1], w.args[2]
+        idx = flow.def_value(idx) if isinstance(idx, ast.Name) else idx
+        zero_based = isinstance(idx, ast.Call) and (full_call_name(mod, idx) or "").split(".")[-1] == "arange" and \
+            (len(idx.args) == 1 or (len(idx.args) >= 2 and isinstance(idx.args[0], ast.Constant) and idx.args[0].value == 0))
+        try:
+            fv = py_poly(fill).const_or_none()
+        except NotAlgebraic:
+            fv = None
+        if not zero_based or fv is None:
+            continue
+        # an explicit look at the first sample could compensate: then this rule does not decide
+        first_elem = any(isinstance(x, ast.Subscript) and isinstance(x.slice, ast.Constant) and x.slice.value == 0
+                         and isinstance(x.value, ast.Name) and x.value.id in f.params for x in ast.walk(f.node))
+        if fv >= 0 and not first_elem:
+            chk.ob("C04.O1", False, where_of(f, c), "latest-event index = %s" % ast.unparse(c)[:110],
+                   "a fill value below every index (e.g. -1) for \"no event yet\"",
+                   key="get_mystery_jump_mask|running-index-sentinel",
+                   why="index 0 is a real sample: rain (or a jump) on the very first step is treated as \"nothing seen yet\", so the flag after an opening rainy step is wrong")
+        elif fv < 0:
+            chk.ob("C04.O1", True, where_of(f, c), "latest-event index = %s" % ast.unparse(c)[:110], "fill below every index",
+                   key="get_mystery_jump_mask|running-index-sentinel")
